@@ -113,19 +113,18 @@ theorem initObj_value (o : Obj) (base : Nat) (opts : Opts) (m r : Mem)
       · -- options 0: the whole object is zeroed, the sub-objects are told ALREADY_ZEROED
         have lv' : opts.leaveUninit = false := by simpa using lv
         simp only [az', lv', Bool.false_eq_true, ↓reduceIte, Bool.not_false] at h
-        cases hsubs : initSubs subs base { opts with alreadyZeroed := true }
+        cases hsubs : initSubs subs base ⟨true, false⟩
             (storeSlots (zeroRange m base size) base ch) with
         | error e => rw [hsubs] at h; simp at h
         | ok m3 =>
           rw [hsubs] at h
           simp only [Except.ok.injEq] at h
-          have ih := initSubs_value subs base { opts with alreadyZeroed := true } _ m3 (Or.inl rfl) hsubs i hsub
+          have ih := initSubs_value subs base ⟨true, false⟩ _ m3 (Or.inl rfl) hsubs i hsub
           rw [← h, storeSlots_not_in base i vt hvt, storeMagic_not_in _ base i hmag, ih,
             storeSlots_not_in base i ch hch]
-          simp only [zeroed, zeroedSubs, az', lv', Bool.false_eq_true, ↓reduceIte, Obj.size, inRange,
-            decide_eq_true_eq]
+          simp only [zeroed, zeroedSubs, az', lv', Bool.false_eq_true, ↓reduceIte, Obj.size, inRange]
           unfold zeroRange
-          rfl
+          by_cases hr : base ≤ i ∧ i < base + size <;> simp [hr]
 
 theorem initSubs_value (s : Subs) (base : Nat) (opts : Opts) (m r : Mem)
     (hne : opts.alreadyZeroed = true ∨ opts.leaveUninit = true)
@@ -300,7 +299,7 @@ theorem init_frame (o : Obj) (hwf : o.wf = true) (base : Nat) (opts : Opts) (m r
         cases hf : firstParts o base i with
         | false => rfl
         | true => exact absurd (firstParts_inRange o hwf base i hf) hout
-      · simp only [az, lv, ↓reduceIte]
+      · simp only [az, lv]
         unfold inRange
         simpa [InRange] using hout
   simpa [hz] using hv
@@ -349,11 +348,11 @@ theorem initSubs_already_zeroed_succeeds (s : Subs) (lo hi : Nat) (hwf : s.wf lo
     rw [hm']
     simp only
     apply initSubs_already_zeroed_succeeds rest (off + o.size) hi hr base lv m'
-    intro i hi
-    have hrange := magicLocsSubs_inRange rest base i (off + o.size) hi hr hi
+    intro i hml
+    have hrange := magicLocsSubs_inRange rest base i (off + o.size) hi hr hml
     have hout : ¬ InRange (base + off) o.size i := by unfold InRange; omega
     rw [init_frame o ho (base + off) ⟨true, lv⟩ m m' hm' i hout]
-    exact hz i (by unfold magicLocsSubs; exact Or.inr hi)
+    exact hz i (by unfold magicLocsSubs; exact Or.inr hml)
 end
 
 /-- `init_options0_succeeds`: with options 0 (and without ALREADY_ZEROED's promise),
